@@ -356,7 +356,9 @@ struct StaticChunking {
 inline StaticChunking staticChunkSize(ssize_t items, ssize_t chunks) {
   assert(chunks > 0);
   StaticChunking chunking;
-  chunking.ceilChunkSize = (items + (chunks - 1)) / chunks;
+  // ceil(items / chunks) without forming items + chunks - 1, which overflows for item counts near
+  // SSIZE_MAX
+  chunking.ceilChunkSize = items / chunks + (items % chunks != 0 ? 1 : 0);
   ssize_t numLeft = chunking.ceilChunkSize * chunks - items;
   chunking.transitionTaskIndex = chunks - numLeft;
   return chunking;
@@ -378,7 +380,7 @@ inline StaticChunking staticChunkSizeGranular(ssize_t items, ssize_t chunks, uin
   StaticChunking chunking;
   // Items measured in "granularity units".
   ssize_t gUnits = items / static_cast<ssize_t>(granularity);
-  ssize_t ceilG = (gUnits + (chunks - 1)) / chunks;
+  ssize_t ceilG = gUnits / chunks + (gUnits % chunks != 0 ? 1 : 0);
   ssize_t numLeft = ceilG * chunks - gUnits;
   chunking.ceilChunkSize = ceilG * static_cast<ssize_t>(granularity);
   chunking.transitionTaskIndex = chunks - numLeft;
